@@ -5,9 +5,9 @@ CONSTANTS
   UnitLens = {1, 3, 6}
   Grans = {1, 2, 4}
   LineLens = {2, 5}
-  Relocs = {0, 65536, -1}
+  Relocs = {0, 65536}
   Fmts = {"MOTO", "INTEL", "INTEL16", "INTEL32", "MOS", "TEK", "ATMEL", "C", "DSK"}
   Devs = {}
   Full = TRUE
-INVARIANTS InvLinesValid InvVerdict InvEmit InvLineLen InvBank InvWholeUnits
+INVARIANTS InvLinesValid InvVerdict InvDecodeEquiv InvEmit InvLineLen InvBank InvWholeUnits
 CHECK_DEADLOCK FALSE
